@@ -44,6 +44,7 @@ func Run(m *mon.M) {
 	m.Stream("quad.pool", m.N(40000, 2000000), quadPool)
 	m.Stream("quad.shared", m.N(600000, 30000000), quadShared)
 	m.Stream("quad.collinear", m.N(200000, 10000000), quadCollinear)
+	m.Stream("quad.denormal", m.N(60000, 3000000), quadDenormal)
 	m.Stream("hist", m.N(40000, 2000000), history)
 }
 
@@ -167,6 +168,45 @@ func quadShared(c *mon.Case) {
 		checkQuad(c, a, b, a, d)
 	} else {
 		checkQuad(c, a, b, b, d)
+	}
+}
+
+// quadDenormal: points with one or two zero coordinates (axes, coordinate planes, face diagonals) whose
+// zeros are replaced by denormal-scale values, and their exact twins: the orientation determinants of such
+// quadruples cancel from terms of size 1 down to about 2^-2148, far beyond any fixed few-thousand-bit budget.
+func quadDenormal(c *mon.Case) {
+	r := c.R
+	base := func() s2.Point {
+		if r.Intn(3) == 0 {
+			return gen.OnPlane(r, r.Intn(3)) // one coordinate exactly zero
+		}
+		return gen.Special(r)
+	}
+	a := base()
+	b := gen.Denormalize(r, a)
+	cc := gen.Denormalize(r, base())
+	d := gen.Denormalize(r, base())
+	switch r.Intn(4) {
+	case 0:
+		d = gen.Uniform(r)
+	case 1:
+		d = gen.Denormalize(r, s2.Point{Vector: a.Mul(-1)})
+	}
+	if r.Intn(2) == 0 {
+		a = gen.Denormalize(r, a)
+	}
+	if c.I < 2 {
+		c.Sample(map[string]any{"a": gen.Hex(a), "b": gen.Hex(b), "c": gen.Hex(cc), "d": gen.Hex(d)})
+	}
+	switch r.Intn(4) {
+	case 0:
+		checkQuad(c, a, cc, b, d)
+	case 1:
+		checkQuad(c, a, cc, a, d)
+	case 2:
+		checkQuad(c, a, cc, b, cc)
+	default:
+		checkQuad(c, a, b, cc, d)
 	}
 }
 
